@@ -73,11 +73,13 @@ pub fn showdown_search(seed: u64, n: u64) -> i32 {
             // board plays for everyone (broadway straight, mixed suits): multi-way ties
             board = [card(0 * 4 + 0), card(1 * 4 + 1), card(2 * 4 + 2), card(3 * 4 + 3), card(4 * 4 + 0)];
         }
-        let np = 1 + rng.below(6) as usize;
+        // mostly 1..6 players; now and then up to 23 (all 47 remaining cards dealt out)
+        let np = if rng.below(8) == 0 { 7 + rng.below(17) as usize } else { 1 + rng.below(6) as usize };
+        if np > 6 { for i in 0..51 { let j = i + rng.below((52 - i) as u64) as usize; deck.swap(i, j); } if mode != 1 { board = [card(deck[0]), card(deck[1]), card(deck[2]), card(deck[3]), card(deck[4])]; } }
         let mut players = vec![];
         let mut k = 5;
         let used: Vec<Card> = board.to_vec();
-        while players.len() < np && k + 1 < 20 {
+        while players.len() < np && k + 1 < (if np > 6 { 52 } else { 20 }) {
             let (a, b) = (card(deck[k]), card(deck[k + 1]));
             k += 2;
             if mode != 4 && (used.contains(&a) || used.contains(&b)) { continue; }
@@ -326,7 +328,12 @@ pub fn gen_iter_case(rng: &mut Rng, it: u64) -> IterCase {
     } else if it % 3 == 2 {
         let a = rand_pos(rng); let b = rand_pos(rng);
         let (a, b) = if a <= b { (a, b) } else { (b, a) };
-        scopes.push((a.0, a.1, b.0, b.1));
+        match rng.below(6) {
+            0 => scopes.push((a.0, a.1, a.0, a.1)),                                   // an empty scope
+            1 => scopes.push((48, 49, 48, 49)),                                       // ... at the terminal position
+            2 => { scopes.push((0, 1, a.0, a.1)); scopes.push((a.0, a.1, a.0, a.1)); scopes.push((a.0, a.1, 48, 49)); }   // a chain with an empty link
+            _ => scopes.push((a.0, a.1, b.0, b.1)),
+        }
     }
     IterCase { flop, ranges, scopes }
 }
@@ -623,10 +630,20 @@ pub fn c11_search(seed: u64, n: u64) -> i32 {
     for it in 0..n {
         let mut case = gen_iter_case(&mut rng, 6 + (it % 2) * 0 + 1); // small ranges (mode 7 / 1)
         case.scopes.clear();
+        if it % 40 == 7 {
+            // many players with one combo each (17..=22 seats, all cards different)
+            let mut deck: Vec<usize> = (0..52).collect();
+            for i in 0..51 { let j = i + rng.below((52 - i) as u64) as usize; deck.swap(i, j); }
+            case.flop = [card(deck[0]), card(deck[1]), card(deck[2])];
+            let seats = 17 + rng.below(6) as usize;
+            case.ranges = (0..seats).map(|s| vec![(CardPair::new(card(deck[3 + 2 * s]), card(deck[4 + 2 * s])), 1.0f32)]).collect();
+        }
         if case.ranges.iter().any(|r| r.len() > 8) { continue; }
         let perm = perms[rng.below(24) as usize];
         let rot = 1 + rng.below(case.ranges.len().max(1) as u64) as usize;
-        if let Err(e) = check_c11(case.flop, &case.ranges, perm, rot) {
+        let (fl, rg) = (case.flop, case.ranges.clone());
+        let res = match std::panic::catch_unwind(move || check_c11(fl, &rg, perm, rot)) { Ok(r) => r, Err(_) => Err("panicked while enumerating or tallying".to_string()) };
+        if let Err(e) = res {
             let d = case.describe();
             println!("WITNESS c11 {}{}{}{} {} {} :: {}", perm[0], perm[1], perm[2], perm[3], rot, d.trim_start_matches("iter "), e);
             println!("SEARCH tried={} found=1", it + 1);
